@@ -55,10 +55,16 @@ func report(prop, tier string, seed int, out string, results []jobResult, loaded
 	var samples []map[string]any
 	var witnesses []map[string]any
 	caseSumm := []map[string]any{}
+	solverPaths := 0
 	for _, jr := range results {
 		r := jr.res
 		paths += r.NPaths
 		steps += r.Steps
+		for _, pr := range r.Paths {
+			if pr.Outcome == "complete" && pr.Decisions > 0 {
+				solverPaths++
+			}
+		}
 		oblig += r.NOblig
 		proved += r.Proved
 		folded += r.Folded
@@ -226,7 +232,9 @@ func report(prop, tier string, seed int, out string, results []jobResult, loaded
 		for _, s := range solver {
 			stime += s.TimeS
 		}
-		nontrivial := proved + nViol
+		// non-trivial = obligations that needed a solver verdict + complete paths that exist only because
+		// the solver decided at least one symbolic branch on the way (their assertions then fold to constants)
+		nontrivial := proved + nViol + solverPaths
 		ev := map[string]any{
 			"property_id": prop, "tier": tier, "seed": seed, "level": "model_checking",
 			"coverage": map[string]any{
